@@ -68,3 +68,7 @@ CORPUS += [
     Mut('c05-invariant-categories-joined-with-hstack', 'torchtree/evolution/site_model.py', '', "        self._probabilities = torch.cat((invariant, 1.0 - invariant), -1)\n",
         "        self._probabilities = torch.hstack((invariant, 1.0 - invariant))\n", mode='text', expect=[('C05.B', 'axes::evolution.site_model.InvariantSiteModel.update_rates_probs::')]),
 ]
+CORPUS += [
+    Mut('c05-optional-parameters-unpacked-by-position', 'torchtree/evolution/site_model.py', 'WeibullSiteModel.from_json', 'return cls(id_, shape, categories, invariant, mu)',
+        'optionals = [x for x in (invariant, mu) if x is not None]\nreturn cls(id_, shape, categories, *optionals)', expect=[('C05.Y', 'evolution.site_model::WeibullSiteModel.from_json::')]),
+]
